@@ -1523,7 +1523,8 @@ class Bits:
             # Removes the offset and truncates to length
             return self._bitstore.getslice(0, len(self))._bitarray
         else:
-            return self._bitstore._bitarray
+            # A copy, so that changing the returned bitarray can't change this (or any other) bitstring.
+            return bitarray.bitarray(self._bitstore._bitarray)
 
     def tofile(self, f: BinaryIO) -> None:
         """Write the bitstring to a file object, padding with zero bits if needed.
